@@ -289,8 +289,8 @@ class X:
     def __le__(a, b): return a._cmp(b, "le")
     def __gt__(a, b): return a._cmp(b, "gt")
     def __ge__(a, b): return a._cmp(b, "ge")
-    def __eq__(a, b): return a._cmp(b, "eq")
-    def __ne__(a, b): return a._cmp(b, "ne")
+    def __eq__(a, b): return False if b is None else a._cmp(b, "eq")      # numpy scalars: x == None is False
+    def __ne__(a, b): return True if b is None else a._cmp(b, "ne")
     __hash__ = None
 
     def __bool__(a):
